@@ -10,6 +10,7 @@ CONSTANT DocMenu <- DMa1
 CONSTANT Lims <- L0
 CONSTANT MaxSteps = 4
 CONSTANT Thin = 1
+CONSTANT KeepRoleHist = FALSE
 CONSTANT PageGap = FALSE
 SPECIFICATION Spec
 INVARIANT BehaviourExport
